@@ -405,7 +405,7 @@ def check_c10(tier, seed):
     rc = ck.finish(); cleanup_streams(); return rc
 
 # ---- C14 ----------------------------------------------------------------------------------------------------
-NULL_OPS = [('set_param', 'handle'), ('set_param', 'cfg'), ('init', 'handle'), ('stream_header', 'handle'), ('stream_header', 'out'), ('stream_header_release', 'buf'), ('send', 'handle'), ('get_packet', 'handle'), ('get_packet', 'out'),
+NULL_OPS = [('set_param', 'handle'), ('set_param', 'cfg'), ('init', 'handle'), ('stream_header', 'handle'), ('stream_header', 'out'), ('stream_header_release', 'buf'), ('send', 'handle'), ('send', 'buf'), ('get_packet', 'handle'), ('get_packet', 'out'),
             ('release', 'ptr'), ('release', 'inner'), ('get_recon', 'handle'), ('get_recon', 'buf'), ('stream_info', 'handle'), ('stream_info', 'info'), ('deinit', 'handle'), ('deinit_handle', 'handle'), ('init_handle', 'handle'), ('init_handle', 'cfg')]
 BAD_FIELDS = [{'enc_mode': 99}, {'source_width': 7}, {'qp': 200}, {'encoder_bit_depth': 9}, {'tile_columns': 77}, {'hierarchical_levels': 17}, {'rate_control_mode': 9}, {'super_block_size': 100}]
 VOID_OPS = ('release',)
@@ -491,7 +491,7 @@ def check_c14(tier, seed):
     # the same erroneous call many times in a row, then a normal session: an error return must not consume anything (pool objects, locks, memory)
     for (op, nul) in [x for x in NULL_OPS if x[0] in ('send', 'get_packet', 'get_recon', 'stream_header', 'stream_info', 'set_param', 'release')]:
         p = gen.program(3, 'each', recon=True); pos = next(i for i, o in enumerate(p) if o['op'] == ('init' if op == 'set_param' else 'send'))
-        for _ in range(80 if tier == 'quick' else 300): p.insert(pos, {'op': op, 'null': nul, 'max': 1})
+        for _ in range(400 if tier == 'quick' else 1500): p.insert(pos, {'op': op, 'null': nul, 'max': 1})   # more calls than any pool has objects
         c = mk(ck, cfg, {'kind': 'mix', 'seed': 5}, 3, (64, 64), oracles={'decode': 0, 'parse': 0, 'order': 0}); c['program'] = p; c['_gen'] = None; c['_repeat'] = 1; cases.append(c); ck.ev.probe('repeated_null_call')
     if tier != 'quick':
         for k in range(40):
